@@ -1044,15 +1044,19 @@ struct UnitAvoidance<CommonPointUnit<Us...>> : std::integral_constant<int, 7> {}
 // for one unit of such a pair makes the ordering strict again, without affecting the position of
 // either unit relative to any other unit.
 template <typename T>
-struct UnitOrderTiebreaker : std::integral_constant<int, 0> {};
+struct UnitOrderTiebreaker;
 
-// Prefixed, scaled, and exponentiated versions of a unit inherit its tiebreaker.
-template <template <class> class Prefix, typename U>
-struct UnitOrderTiebreaker<Prefix<U>> : UnitOrderTiebreaker<U> {};
-
+// Scaled versions of a unit (including prefixed ones, which derive from a `ScaledUnit`) inherit its
+// tiebreaker.  We detect them by their base class: matching the prefix _template_ would depend on
+// how the compiler matches template template parameters, which varies with the language standard.
 template <typename U, typename ScaleFactor>
-struct UnitOrderTiebreaker<ScaledUnit<U, ScaleFactor>> : UnitOrderTiebreaker<U> {};
+UnitOrderTiebreaker<U> tiebreaker_of_scaled_unit(const ScaledUnit<U, ScaleFactor> *);
+std::integral_constant<int, 0> tiebreaker_of_scaled_unit(...);
 
+template <typename T>
+struct UnitOrderTiebreaker : decltype(tiebreaker_of_scaled_unit(static_cast<T *>(nullptr))) {};
+
+// Exponentiated versions of a unit inherit its tiebreaker, too.
 template <typename B, std::intmax_t N>
 struct UnitOrderTiebreaker<Pow<B, N>> : UnitOrderTiebreaker<B> {};
 
